@@ -16,7 +16,7 @@ EPS = 2.3e-16
 
 def plan(tier):
     n = 320 if tier == 'quick' else 12000
-    return dict(suite_monitor=True, n_cases=n, shards=16, min_nontrivial=n // 3, min_hits={'freq': n // 2}, min_tags={'src:panel_method': n // 40, 'src:assembly_free': n // 40, 'src:bay_free': n // 40},
+    return dict(suite_monitor=True, n_cases=n, shards=16, min_nontrivial=n // 3, min_hits={'freq': n // 2}, min_tags={'src:panel_method': n // 40, 'src:assembly_free': n // 40, 'src:bay_free': n // 40, 'spec:spring_net': n // 20},
                 watchdog_s=1500 if tier == 'quick' else 7200,
                 rule='random SPD pairs (K, M) sharing a random set of null rows/cols, sizes 6..%d, spectra spread over '
                      'decades / clustered within 0.1 rad/s / omega~1, 1..25 requested eigenvalues, both solver switches, '
@@ -108,7 +108,15 @@ def random_pair(rng, tier):
     n = int(rng.integers(6, 40)) if rng.random() < 0.6 else int(rng.integers(6, nmax + 1))
     na = n if rng.random() < 0.35 else int(rng.integers(max(5, n // 3), n + 1))
     act = np.sort(rng.choice(n, na, replace=False))
-    style = str(rng.choice(['spread', 'clustered', 'unit', 'repeated', 'wide']))
+    style = str(rng.choice(['spread', 'clustered', 'unit', 'repeated', 'wide', 'spring_net']))
+    if style == 'spring_net':
+        # lumped spring-mass network: stiffness columns of the unrestrained nodes sum to exactly zero
+        Ka = eig.spring_net(rng, na)
+        Ma = np.diag(rng.uniform(0.1, 10, na)) if rng.random() < 0.6 else eig.random_spd(rng, na, 10 ** rng.uniform(0.5, 2))
+        us = float(2.0 ** rng.integers(-20, 21)) if rng.random() < 0.3 else 1.0
+        K = sp.csr_matrix(eig.embed(Ka, n, act) * us)
+        M = sp.csr_matrix(eig.embed(Ma, n, act) * us)
+        return K, M, dict(src='random', n=n, n_active=na, spectrum=style, unit_scale=us), na
     Q, _ = np.linalg.qr(rng.normal(size=(na, na)))
     if style == 'spread':
         w2 = 10 ** rng.uniform(0, 6, na)
@@ -261,6 +269,10 @@ def run_case(rng, tier, idx):
                     p.Nxx, p.Nyy, p.Nxy = [float(x) for x in N]
                     atype = 3
                     c.desc['preload'] = [float(x) for x in N]
+            if atype == 4:
+                # plain frequencies: whatever an earlier buckling / static / flutter run left on the object is no part of the pencil
+                for k_ in gen.leftovers(rng, p):
+                    c.tag('left:' + k_)
             c.tag('atype:%d' % atype)
             p.freq(atype=atype, silent=True, sparse_solver=sparse, sort=sort)
             c.hit('Panel.freq')
